@@ -201,6 +201,9 @@ def run_one(tapes, tier, scenario=None):
     for t in sim.final_threads:
         if t[3] is not None:
             res.v("thread_died", t[0], "thread %s died with %s" % (t[0], t[3]))
+        elif t[2] and str(t[4] or "").startswith("sock."):
+            # the server's sockets are non-blocking: nobody may ever sleep inside send()/recv()
+            res.v("thread_stuck", "blocked_in_" + str(t[4]), "thread %s is asleep inside a socket call (%s) at the end of the run" % (t[0], t[4]))
     lp = common.log_problems(sim)
     if lp:
         res.v("escaped_exception", "logged", "server logged: %s\n%s" % (lp[0][1], lp[0][2]))
